@@ -62,7 +62,8 @@ CHECKS = {
             "(T6) with A.solve(X) = A^-1 X as a primitive, every evaluable solve_triangular definition returns A^-1 R "
             "for left=True and R A^-1 for left=False, or raises; (T8) the operator-second handler of a non-commutative function does not hand its operands, unswapped, to "
             "the operator-first implementation; (T9) a registered handler reads every parameter it accepts outside error messages, or "
-            "refuses unconditionally (an argument torch honours is never silently ignored); (T7) a unary elementwise map applied factor by factor "
+            "refuses unconditionally (an argument torch honours is never silently ignored); (T10) a parameter that is read only in the tests "
+            "guarding raise statements is pinned to a tested constant on every returning path (propositional consistency of the path's tests); (T7) a unary elementwise map applied factor by factor "
             "to a Kronecker-structured operator is a multiplicative function (abs, sqrt, inverse ...), never exp/log. "
             "NOT decided: that each first-operand handler's value equals torch on the dense tensor (numerical).",
             TRUST + "; operators' +, @, mul are true sum/product/elementwise product (C01/C02).",
